@@ -55,6 +55,32 @@ func AwaitDone(w *World, r *Req) (hung bool, inconclusive string) {
 	return false, "request neither finished nor quiescent within the watchdog"
 }
 
+// AwaitDoneOrIdle waits until the request finished ("done"), or the system is quiescent for
+// confirm without the request finishing ("idle"), or the watchdog fires ("inconclusive").
+func AwaitDoneOrIdle(w *World, r *Req, confirm time.Duration) string {
+	deadline := time.Now().Add(90 * time.Second)
+	for {
+		select {
+		case <-r.Done():
+			return "done"
+		case <-time.After(2 * time.Millisecond):
+		}
+		if ok, _ := w.Q.Await(5, 20*time.Millisecond); ok {
+			if ok2, _ := w.Q.Sustained(confirm); ok2 {
+				select {
+				case <-r.Done():
+					return "done"
+				default:
+					return "idle"
+				}
+			}
+		}
+		if time.Now().After(deadline) {
+			return "inconclusive"
+		}
+	}
+}
+
 // RunExchange runs the case's request between a real requestor and a real cooperative responder.
 func RunExchange(c *Case, level int, setup func(x *Exchange)) *Exchange {
 	return runExchangeFull(c, level, setup, nil)
